@@ -30,7 +30,7 @@ Proof.
   unfold call_function. destruct (assoc_text name (h_funs h)) as [b|].
   - destruct b; cbn; try apply prefix_refl; try apply prefix_nil. destruct args; cbn; [apply prefix_nil|apply prefix_refl].
   - destruct (mem_text name (h_registry h)); [|cbn; apply prefix_nil].
-    destruct (builtin name args) as [[w|e| |]|]; cbn; try apply prefix_refl; apply prefix_nil.
+    destruct (builtin name args) as [[w|e| |]|]; try destruct (h_oracle h name args) as [[w'|e'| |]|]; cbn; try apply prefix_refl; apply prefix_nil.
 Qed.
 
 Lemma xvals_prefix h args : Forall (fun e => is_prefix (map ref_of (snd (xval h e))) (refs e)) args ->
